@@ -26,7 +26,7 @@ SegHdr(s, hiports, ver) ==
       Dst == IF ver = 4 THEN Dst4 ELSE Dst6
       cport == s.cp
       sport == IF hiports THEN 8080 ELSE s.sp
-      fl == (IF s.syn THEN SYN ELSE 0) + (IF s.ack THEN ACK ELSE 0)
+      fl == (IF s.syn THEN SYN ELSE 0) + (IF s.ack THEN ACK ELSE 0) + s.xfl
       ol == [opts |-> <<[k |-> "nop"], [k |-> "nop"], [k |-> "ts", val |-> Bytes4(s.ts), ecr |-> Zero4]>>, trail |-> <<>>]
   IN WithOpts([base EXCEPT !.src = IF s.ep = "c" THEN Src ELSE Dst, !.dst = IF s.ep = "c" THEN Dst ELSE Src,
                            !.sport = IF s.ep = "c" THEN cport ELSE sport, !.dport = IF s.ep = "c" THEN sport ELSE cport,
@@ -44,8 +44,10 @@ Run(segs, i, cur, acc) ==
                            devouts |-> SetToSeq({r.out : r \in UNION {Observe(e, s.ts, s.t, {"D19_guess_returns_base"}) : e \in cur[s.ep]}})]))
 Expect(segs) == Run(segs, 1, [ep \in {"c", "s"} |-> {None}], <<>>)
 
-Seg(ep, syn, ack, ts, t) == [ep |-> ep, syn |-> syn, ack |-> ack, ts |-> ts, t |-> t, cp |-> 40000, sp |-> 80]
-SegP(ep, ts, t, cp, sp) == [ep |-> ep, syn |-> FALSE, ack |-> TRUE, ts |-> ts, t |-> t, cp |-> cp, sp |-> sp]
+Seg(ep, syn, ack, ts, t) == [ep |-> ep, syn |-> syn, ack |-> ack, ts |-> ts, t |-> t, cp |-> 40000, sp |-> 80, xfl |-> 0]
+SegP(ep, ts, t, cp, sp) == [ep |-> ep, syn |-> FALSE, ack |-> TRUE, ts |-> ts, t |-> t, cp |-> cp, sp |-> sp, xfl |-> 0]
+\* handshake segments with further flag bits (ECN setup: SYN|ECE|CWR, SYN|ACK|ECE; PSH; URG) between arbitrary ports
+SegH(ep, syn, ack, x, ts, t, cp, sp) == [ep |-> ep, syn |-> syn, ack |-> ack, ts |-> ts, t |-> t, cp |-> cp, sp |-> sp, xfl |-> x]
 
 DmsS == <<24, 25, 26, 99, 100, 101, 1000, 10000, 599999, 600000, 600001>>
 BaseS == <<P(0, 1000), P(32767, 65000), P(65535, 65000), P(12345, 54321)>>
@@ -93,8 +95,18 @@ RoleCase(k) ==
   <<SegP("c", P(10, 1000), T0, pp[1], pp[2]), SegP("s", P(20, 500), T0 + 5, pp[1], pp[2]), SegP("c", P(10, 1200), T0 + 200, pp[1], pp[2]),
     SegP("s", P(20, 600), T0 + 1005, pp[1], pp[2])>>
 
-CaseOf(k) == CASE Fam = "role" -> RoleCase(k) [] Fam = "freq" -> FreqCase(k) [] Fam = "both" -> BothCase(k) [] Fam = "bad" -> BadCase(k) [] Fam = "back" -> BackCase(k)
-NOf == CASE Fam = "role" -> NRole [] Fam = "freq" -> NFreq [] Fam = "both" -> NBoth [] Fam = "bad" -> NBad [] Fam = "back" -> NBack
+\* hsflags: the handshake flags decide the role whatever else is set and whatever the ports would suggest (a SYN+ACK with ECE from
+\* port 2049 to the reserved port 799 is still the server's; retransmitted 1 s later it yields the server's estimate)
+XFlags == <<0, 64, 192, 8, 32, 72>>
+HsPorts == <<<<799, 2049>>, <<40000, 80>>, <<80, 40000>>, <<1024, 1025>>>>
+NHs == Len(XFlags) * Len(HsPorts)
+HsCase(k) ==
+  LET x == XFlags[(k % Len(XFlags)) + 1]  pp == HsPorts[(k \div Len(XFlags)) + 1] IN
+  <<SegH("c", TRUE, FALSE, x, P(10, 1000), T0, pp[1], pp[2]), SegH("s", TRUE, TRUE, x % 128, P(20, 500), T0 + 5, pp[1], pp[2]),
+    SegH("c", TRUE, FALSE, x, P(10, 1100), T0 + 1000, pp[1], pp[2]), SegH("s", TRUE, TRUE, x % 128, P(20, 1500), T0 + 1005, pp[1], pp[2])>>
+
+CaseOf(k) == CASE Fam = "hsflags" -> HsCase(k) [] Fam = "role" -> RoleCase(k) [] Fam = "freq" -> FreqCase(k) [] Fam = "both" -> BothCase(k) [] Fam = "bad" -> BadCase(k) [] Fam = "back" -> BackCase(k)
+NOf == CASE Fam = "hsflags" -> NHs [] Fam = "role" -> NRole [] Fam = "freq" -> NFreq [] Fam = "both" -> NBoth [] Fam = "bad" -> NBad [] Fam = "back" -> NBack
 
 \* the address family does not matter to the estimate, its attribution or its label: odd cases travel over IPv6
 VerOf(k) == IF k % 2 = 1 THEN 6 ELSE 4
